@@ -6,6 +6,7 @@ import (
 	"go/token"
 	"go/types"
 	"sort"
+	"strings"
 )
 
 // globalWriteScan: C16 needs "the package keeps no mutable global state". For every package-level variable of the
@@ -92,4 +93,369 @@ func globalWriteScan(v *Verifier) []*ObResult {
 		out = append(out, r)
 	}
 	return out
+}
+
+// ---- package-level variables that a cone reads -------------------------------------------------------------------
+//
+// A function that reads a package-level variable is verified against the variable's initial value. That is sound only
+// if no function of the module ever changes it. Direct assignments are excluded by globals:never-assigned (C16) and
+// by the frame:global obligations of every function that is analysed; what remains is a write through a pointer that
+// escaped. So for every package-level variable g read inside a property's cone, (1) every function that mentions g
+// joins the cone (its frame:global:g obligation is then part of the property), and (2) one obligation
+// globals:no-escape:g states that the address of g (or a reference stored in g) never leaves the functions that
+// mention it other than as a direct argument or receiver of a call to a function under contract that does not
+// return it.
+
+type globalIndex struct {
+	mentions map[string][]string // qualified variable -> qualified functions whose body mentions it
+	callers  map[string][]string // qualified function -> qualified functions that call it (syntactically)
+	vars     map[string]*types.Var
+}
+
+func qualVar(v *types.Var) string { return v.Pkg().Name() + "." + v.Name() }
+
+func (v *Verifier) globalIdx() *globalIndex {
+	if v.gidx != nil {
+		return v.gidx
+	}
+	gi := &globalIndex{mentions: map[string][]string{}, callers: map[string][]string{}, vars: map[string]*types.Var{}}
+	for _, p := range v.prog.Pkgs {
+		for _, f := range p.Files {
+			if strings.HasPrefix(v.prog.Fset.Position(f.Package).Filename, clientsDir) {
+				continue
+			}
+			for _, d := range f.Decls {
+				fd, ok := d.(*ast.FuncDecl)
+				if !ok || fd.Body == nil {
+					continue
+				}
+				me := p.Name + "." + funcKey(fd)
+				seenV, seenC := map[string]bool{}, map[string]bool{}
+				ast.Inspect(fd.Body, func(n ast.Node) bool {
+					id, ok := n.(*ast.Ident)
+					if !ok {
+						return true
+					}
+					switch o := p.Info.Uses[id].(type) {
+					case *types.Var:
+						if o.Pkg() != nil && o.Parent() == o.Pkg().Scope() && v.prog.Pkgs[o.Pkg().Path()] != nil {
+							q := qualVar(o)
+							gi.vars[q] = o
+							if !seenV[q] {
+								seenV[q] = true
+								gi.mentions[q] = append(gi.mentions[q], me)
+							}
+						}
+					case *types.Func:
+						if fr := v.prog.FuncOf(o); fr != nil {
+							q := fr.QName()
+							if !seenC[q] {
+								seenC[q] = true
+								gi.callers[q] = append(gi.callers[q], me)
+							}
+						}
+					}
+					return true
+				})
+			}
+		}
+	}
+	v.gidx = gi
+	return gi
+}
+
+// contractedMentioners: the functions under contract through which code mentioning g is analysed (a mentioning
+// function without a contract is inlined into its callers, so its contracted callers stand for it).
+func (v *Verifier) contractedMentioners(g string) []string {
+	gi := v.globalIdx()
+	seen := map[string]bool{}
+	var out []string
+	work := append([]string{}, gi.mentions[g]...)
+	for len(work) > 0 {
+		f := work[0]
+		work = work[1:]
+		if seen[f] {
+			continue
+		}
+		seen[f] = true
+		if _, ok := v.specs.Funcs[f]; ok {
+			out = append(out, f)
+			continue
+		}
+		work = append(work, gi.callers[f]...)
+	}
+	sort.Strings(out)
+	return out
+}
+
+func hasRefs(t types.Type) bool {
+	switch u := t.Underlying().(type) {
+	case *types.Basic:
+		return u.Kind() == types.UnsafePointer
+	case *types.Array:
+		return hasRefs(u.Elem())
+	case *types.Struct:
+		for i := 0; i < u.NumFields(); i++ {
+			if hasRefs(u.Field(i).Type()) {
+				return true
+			}
+		}
+		return false
+	}
+	return true
+}
+
+// globalEscapeScan produces the globals:no-escape obligation of each listed variable.
+func (v *Verifier) globalEscapeScan(prop string, globals []string) []*ObResult {
+	gi := v.globalIdx()
+	var out []*ObResult
+	for _, g := range globals {
+		gv := gi.vars[g]
+		if gv == nil {
+			continue
+		}
+		if isErr := types.Identical(gv.Type(), types.Universe.Lookup("error").Type()); isErr {
+			continue // error values are immutable; re-assignment is the business of globals:never-assigned
+		}
+		var leaks []string
+		for _, p := range v.prog.Pkgs {
+			for _, f := range p.Files {
+				if strings.HasPrefix(v.prog.Fset.Position(f.Package).Filename, clientsDir) {
+					continue
+				}
+				v.escapesIn(p, f, gv, &leaks)
+			}
+		}
+		name := fmt.Sprintf("%s#globals:no-escape:%s", gv.Pkg().Name(), gv.Name())
+		r := &ObResult{Name: name, Subs: 1, Trivial: 1, Status: "discharged", Solvers: map[string]int{"engine:syntactic": 1}, Props: []string{prop}, Kind: "globals"}
+		if len(leaks) > 0 {
+			r.Status = "failed"
+			r.Worst = &Oblig{Name: name, Func: gv.Pkg().Name(), Kind: "globals", Sub: "-",
+				Info: "a reference to the package-level variable leaves the function that takes it (" + leaks[0] + "); functions verified against its initial value are no longer protected from writes",
+				Res:  SolverResult{Solver: "engine", Result: "sat"}}
+		}
+		out = append(out, r)
+	}
+	return out
+}
+
+// escapesIn walks one file and records every use of gv that hands out a reference to it.
+func (v *Verifier) escapesIn(p *Pkg, f *ast.File, gv *types.Var, leaks *[]string) {
+	v.refLeaks(p, f, gv, false, 0, leaks)
+}
+
+// refLeaks walks root and records every place where a reference to obj's storage (obj is a package-level variable),
+// or the reference held in obj itself (isPtr: obj is a pointer or slice parameter that received such a reference),
+// goes anywhere but: a dereference or field/element read, a comparison with nil, the receiver or a direct argument
+// of a call to a function under contract that does not return it, a modelled read-only standard-library function, or
+// an uncontracted module function whose body obeys the same rules for the corresponding parameter.
+func (v *Verifier) refLeaks(p *Pkg, root ast.Node, obj types.Object, isPtr bool, depth int, leaks *[]string) {
+	if depth > 6 {
+		*leaks = append(*leaks, "call chain too deep to follow")
+		return
+	}
+	var stack []ast.Node
+	ast.Inspect(root, func(n ast.Node) bool {
+		if n == nil {
+			stack = stack[:len(stack)-1]
+			return true
+		}
+		stack = append(stack, n)
+		id, ok := n.(*ast.Ident)
+		if !ok || p.Info.Uses[id] != obj {
+			return true
+		}
+		where := v.prog.Fset.Position(id.Pos()).String()
+		// climb the access chain g.f[i].h ...
+		i := len(stack) - 2
+		var top ast.Node = id
+		if i >= 0 {
+			if q, ok := stack[i].(*ast.SelectorExpr); ok && q.Sel == id { // pkg.Var
+				top = q
+				i--
+			}
+		}
+		derefd := false
+	climb:
+		for ; i >= 0; i-- {
+			switch x := stack[i].(type) {
+			case *ast.SelectorExpr:
+				if x.X == top {
+					if sel := p.Info.Selections[x]; sel != nil && sel.Kind() != types.FieldVal {
+						break climb // method value / call: handled below through the parent
+					}
+					top = x
+					derefd = true
+					continue
+				}
+			case *ast.IndexExpr:
+				if x.X == top {
+					top = x
+					derefd = true
+					continue
+				}
+			case *ast.StarExpr:
+				if isPtr && x.X == top {
+					top = x
+					derefd = true
+					continue
+				}
+			case *ast.ParenExpr:
+				top = x
+				continue
+			}
+			break climb
+		}
+		var parent ast.Node
+		if i >= 0 {
+			parent = stack[i]
+		}
+		topExpr, _ := top.(ast.Expr)
+		ref := false // does the expression at 'top' (possibly with its parent operator) denote a reference?
+		var refNode ast.Node = top
+		switch x := parent.(type) {
+		case *ast.UnaryExpr:
+			if x.Op == token.AND {
+				ref, refNode = true, x
+			}
+		case *ast.SliceExpr:
+			if x.X == top {
+				ref, refNode = true, x
+			}
+		case *ast.SelectorExpr:
+			// method call on (part of) the object: pointer receivers take the address implicitly
+			if sel := p.Info.Selections[x]; sel != nil && sel.Kind() == types.MethodVal && x.X == top {
+				if _, isP := sel.Obj().(*types.Func).Type().(*types.Signature).Recv().Type().(*types.Pointer); isP {
+					ref, refNode = true, x
+				}
+			}
+		}
+		if !ref && isPtr && !derefd {
+			ref = true // the parameter itself is the reference
+		}
+		if !ref && topExpr != nil {
+			if tv, ok := p.Info.Types[topExpr]; ok && tv.Type != nil && hasRefs(tv.Type) {
+				ref = true // copying a slice, map or pointer stored there shares what it refers to
+			}
+		}
+		if !ref {
+			return true
+		}
+		// where does the reference go?
+		j := i
+		if refNode != top {
+			j = i - 1
+		}
+		for j >= 0 {
+			if _, ok := stack[j].(*ast.ParenExpr); ok {
+				j--
+				continue
+			}
+			break
+		}
+		if j < 0 {
+			*leaks = append(*leaks, where)
+			return true
+		}
+		switch c := stack[j].(type) {
+		case *ast.BinaryExpr:
+			if c.Op == token.EQL || c.Op == token.NEQ {
+				return true // comparison (with nil or another pointer) hands nothing out
+			}
+			*leaks = append(*leaks, where)
+		case *ast.AssignStmt:
+			for _, l := range c.Lhs {
+				if ast.Node(l) == stack[j+1] {
+					return true // it is being assigned to, not copied from (writes are the frame obligations' business)
+				}
+			}
+			*leaks = append(*leaks, where+" (stored in a variable)")
+		case *ast.CallExpr:
+			var callee *types.Func
+			switch fn := c.Fun.(type) {
+			case *ast.SelectorExpr:
+				callee, _ = p.Info.Uses[fn.Sel].(*types.Func)
+			case *ast.Ident:
+				callee, _ = p.Info.Uses[fn].(*types.Func)
+			}
+			if callee == nil {
+				if fid, ok := c.Fun.(*ast.Ident); ok {
+					if _, isB := p.Info.Uses[fid].(*types.Builtin); isB {
+						if fid.Name == "append" && len(c.Args) > 0 && ast.Node(c.Args[0]) == stack[j+1] {
+							*leaks = append(*leaks, where+" (append onto it)")
+						}
+						return true // len, cap, copy, append(x, it...) read it
+					}
+				}
+				*leaks = append(*leaks, where+" (call of a function value or conversion)")
+				return true
+			}
+			argIdx := -1
+			for k, a := range c.Args {
+				if ast.Node(a) == stack[j+1] {
+					argIdx = k
+				}
+			}
+			if fr := v.prog.FuncOf(callee); fr != nil {
+				names, _ := paramNames(fr.Decl)
+				off := 0
+				if fr.Decl.Recv != nil {
+					off = 1
+				}
+				pname := ""
+				if argIdx >= 0 && argIdx+off < len(names) {
+					pname = names[argIdx+off]
+				} else if argIdx < 0 && off == 1 && len(names) > 0 {
+					pname = names[0]
+				}
+				fc := v.specs.Funcs[fr.QName()]
+				if fc == nil {
+					// inlined callee: its parameter is an alias of the reference; follow it
+					var pobj types.Object
+					cp := fr.Pkg
+					ast.Inspect(fr.Decl, func(m ast.Node) bool {
+						if pid, ok := m.(*ast.Ident); ok && pid.Name == pname && cp.Info.Defs[pid] != nil && pobj == nil {
+							pobj = cp.Info.Defs[pid]
+						}
+						return true
+					})
+					if pobj == nil || fr.Decl.Body == nil {
+						*leaks = append(*leaks, where+" (passed to "+fr.QName()+")")
+						return true
+					}
+					v.refLeaks(cp, fr.Decl.Body, pobj, true, depth+1, leaks)
+					return true
+				}
+				// a callee that returns the very parameter that received the reference hands it on
+				for _, r := range fc.Returns {
+					if r != "" && r == pname {
+						if j == 0 {
+							*leaks = append(*leaks, where)
+						} else if _, dropped := stack[j-1].(*ast.ExprStmt); !dropped {
+							*leaks = append(*leaks, where+" ("+fr.QName()+" returns that argument)")
+						}
+					}
+				}
+				return true
+			}
+			// standard library: read-only uses that the engine models
+			full := callee.FullName()
+			switch {
+			case strings.HasPrefix(full, "crypto/subtle.ConstantTimeCompare"), strings.HasPrefix(full, "crypto/subtle.ConstantTimeEq"),
+				strings.HasPrefix(full, "bytes.Equal"), strings.HasPrefix(full, "slices.Equal"), strings.HasPrefix(full, "slices.Clone"), strings.HasPrefix(full, "bytes.Clone"),
+				strings.HasPrefix(full, "encoding/hex.EncodeToString"), strings.HasSuffix(full, ".Uint64"), strings.HasSuffix(full, ".Uint32"), strings.HasSuffix(full, ".Uint16"),
+				full == "(io.Writer).Write", full == "(*math/big.Int).SetBytes":
+				return true
+			}
+			if (full == "crypto/subtle.ConstantTimeCopy" || full == "crypto/subtle.XORBytes") && argIdx > 0 {
+				if full == "crypto/subtle.XORBytes" || argIdx == 2 {
+					return true // source operands
+				}
+			}
+			*leaks = append(*leaks, where+" (passed to "+full+")")
+		default:
+			*leaks = append(*leaks, where)
+		}
+		return true
+	})
 }
